@@ -236,12 +236,17 @@ def setter_apply(name: str, strict: bool):
     def apply(ex: Executor, st: State, recv, args, kwargs, line):
         P = pairs_from_call(ex, st, args, kwargs, vsort)
         v0 = View(st.clone(), recv)
-        ob = ex.oblige("call-pre", st, C.no_raise(v0, P), line, f"{name}:no-raise")
         outs = []
-        if ob.status != "discharged" and not strict:
+        if strict:
+            ex.oblige("call-pre", st, C.no_raise(v0, P), line, f"{name}:no-raise")
+        else:
+            # the caller tolerates ValueError (a refused limit) but not KeyError: the keys must be the element's keys
+            k = k_()
+            ex.oblige("call-pre", st, z3.ForAll([k], z3.Implies(P.has(k), v0.keys(k))), line, f"{name}:keys-are-parameter-keys (no KeyError)")
             sr = st.clone()
             sr.pc.append(z3.Not(C.no_raise(v0, P)))
-            outs.append((Raised(Exc("ValueError|KeyError", line)), sr))
+            if ex.feasible(sr):
+                outs.append((Raised(Exc("ValueError", line)), sr))
         st.pc.append(C.no_raise(v0, P))
         o = st.deref(recv)
         for n in C.modifies():
